@@ -46,7 +46,14 @@ def resolver : String := "%s"
 /-- full text (not only control structure) of `structDesc`, `tField`, `tType`, `fromDefsFields`,
     `fromDefsField`, `GetField`, `newTType`: the descriptor tables every codec theorem takes for granted -/
 def descTable : String := "%s"
+/-- every store into package-level state of `internal/reflect` and `internal/defs` outside `init` functions
+    ("pkg/file:func writes var"): the descriptor build under its lock (`createStructDesc`,
+    `newStructDescAndPrefetch`, `fetchStructDesc`, `rollbackBuild`, `newTType`), the two table registrations
+    that only `init` calls, and the caller-less caching `ResolveFields` under its own lock — nothing on the
+    encode / size / decode paths -/
+def sharedWrites : List String := %s
 end Frugal.Skeleton
-""" % (sk["decoderSkeleton"], sk["encoderSkeleton"], sk["resolverSkeleton"], sk["descTableSkeleton"])
+""" % (sk["decoderSkeleton"], sk["encoderSkeleton"], sk["resolverSkeleton"], sk["descTableSkeleton"],
+       _re.search(r"  sharedWriteSiteList := (\[.*\])", src).group(1))
 open(os.path.join(V, "lean/Frugal/Skeleton.lean"), "w").write(SK)
 print("wrote Skeleton.lean")
